@@ -21,7 +21,7 @@ import stages
 from tbf import walk, kids, strip, AnalysisBroken
 
 LEVEL = "other"
-TECHNIQUE = "branch-wise polynomial identities (sympy) for the repetition formulas and window-vs-extent agreement from the clang AST, sibling summary comparison"
+TECHNIQUE = "branch-wise polynomial identities or constant folding of the repetition functions + window-vs-extent agreement + sibling comparison by value + interval tiling argument over the virtual levels with constants read from the clang AST + mutable-member rule"
 
 CLASSES = ["TbfAlgorithmPeriodicTopTree", "TbfAlgorithmPeriodicTopTreeTsm"]
 P = sympy.Symbol("p", positive=True)   # 2^n
